@@ -53,7 +53,12 @@ FromGlwe == { With(s, [op |-> "lwe_from_glwe", nlwe |-> a, aidx |-> i, rout |-> 
 FromLwe == { With(s, [op |-> "glwe_from_lwe", nlwe |-> a, n |-> NFam]) : s \in {x \in Shapes : x.dsize = 1}, a \in LweDims }
 Extract == { With(s, [op |-> "sample_extract", nlwe |-> a, n |-> NFam]) : s \in {x \in Rank1 : x.bkey = x.bin /\ x.bout = x.bin}, a \in 1..NFam }
 
-Descs == Out \cup InPlace \cup AutoOut \cup AutoIn \cup TraceOut \cup TraceIn \cup Pack \cup LweKs \cup FromGlwe \cup FromLwe \cup Extract
+\* GGLWE key-switch: a GGLWE of dnum_a rows (digit size 1, ra input columns) under the source key
+GglweKs == { With(s, [op |-> "gglwe_ks", rout |-> ro, ra |-> ra, dnum_a |-> da, dnum_r |-> dr, n |-> NFam]) :
+               s \in {x \in Shapes : x.bin = x.bout}, ro \in Ranks, ra \in {1, 2}, da \in {2, 3}, dr \in {1, 2, 3} }
+GglweKsOK == { d \in GglweKs : d.dnum_r <= d.dnum_a }
+GglweKsIn == { With(s, [op |-> "gglwe_ks_assign", ra |-> ra, dnum_a |-> da, dnum_r |-> da, n |-> NFam]) : s \in SameShapes, ra \in {1, 2}, da \in {2, 3} }
+Descs == GglweKsOK \cup GglweKsIn \cup Out \cup InPlace \cup AutoOut \cup AutoIn \cup TraceOut \cup TraceIn \cup Pack \cup LweKs \cup FromGlwe \cup FromLwe \cup Extract
 
 ASSUME ndJsonSerialize(IOEnv.OUT, SetToSeq(Descs))
 ASSUME PrintT(<<"GENERATED", Cardinality(Descs)>>)
